@@ -1,4 +1,5 @@
 pub mod bridge;
+pub mod crash;
 pub mod engine;
 pub mod gen;
 pub mod props;
